@@ -177,6 +177,22 @@ def scripts_for(tier, rng):
     vs = [[bytes.fromhex(x) for x in o.split(",")] if o else [] for o in run_model(reqs)]
     chk = run_model([(bytes([10]) + (27015).to_bytes(2, "big") + b"\x01" + (440).to_bytes(4, "big") + b"\x00" + enc_ts(None) + enc_events(ev) + b"\x00\x00\x00\x00").hex() for ev in vs])
     out += [("teamfortress2", "valve%d" % i, ev) for i, (ev, c) in enumerate(zip(vs, chk)) if c.startswith("Ok(")][:n]
+    # the same replies with the info reply announcing fewer players than the player reply lists (a player still connecting)
+    low = []
+    for i, (ev, c) in enumerate(zip(vs, chk)):
+        if not c.startswith("Ok("):
+            continue
+        ev2 = list(ev)
+        for j, d in enumerate(ev2):
+            if d is not None and d[:5] == b"\xff\xff\xff\xff\x49":
+                pos = 6
+                for _ in range(4):                      # name, map, folder, game
+                    pos = d.index(b"\x00", pos) + 1
+                pos += 2                                # app id
+                ev2[j] = d[:pos] + bytes([min(d[pos], 1)]) + d[pos + 1:]
+        if ev2 != list(ev):
+            low.append(("teamfortress2", "valve-lowcount%d" % i, ev2))
+    out += low[:n]
     out += [("q3a", "quake%d" % i, [s["dg"]]) for i, s in enumerate(quake_specs([(x, 3) for x in seeds("quake")])) if s["expected"].startswith("Some(")][:n]
     for ver, game in ((1, "unrealtournament"), (2, "hce"), (3, "crysiswars")):
         out += [(game, "gs%d-%d" % (ver, i), s["events"]) for i, s in enumerate(gs_specs(ver, seeds("gs%d" % ver))) if s["fits"]][:n]
@@ -250,6 +266,16 @@ def extra_runs(tier, rng, ctx):
                     continue
                 docs += 1
                 outs[(mode, fmt)] = (so, rep)
+        # both modes describe the same reply: where both list players by name, the lists are the same
+        if ("generic", "json") in outs and ("protocol-specific", "json") in outs:
+            try:
+                jg = parse_json(outs[("generic", "json")][0].decode("utf-8"))
+                js_ = parse_json(outs[("protocol-specific", "json")][0].decode("utf-8"))
+                ng, ns = player_names(jg), player_names(js_)
+                if ng is not None and ns is not None and ng != ns:
+                    fails.append(("generic-differs:players", "%s: the generic output lists players %r, the protocol-specific output %r" % (label, ng[:8], ns[:8]), outs[("generic", "json")][1]))
+            except (ValueError, UnicodeDecodeError):
+                pass
         for mode in MODES:
             if (mode, "json") not in outs:
                 continue
@@ -290,11 +316,19 @@ def extra_runs(tier, rng, ctx):
         if tags.get("render") != "same" and label.endswith(" generic"):
             # the generic view has no maps: the order of members is fixed, the rendering must be the model's byte for byte
             fails.append(("xml-writer-model", "%s: the XML printed differs from the model's rendering of the value printed as JSON (%s)" % (label, v), rep))
-        if tags.get("parse") != "ok":
+        if tags.get("conforms") != "yes":
+            # whatever the order of the members of the maps, this is not what the writer (as modelled) prints for the value
+            fails.append(("xml-writer-model", "%s: the XML printed is not the writer's rendering of the value printed as JSON, for any order of the map members (%s): %s" % (label, v, x[:300]), rep))
+        elif tags.get("parse") != "ok":
+            # the document is exactly the writer's rendering and still malformed: only a name or a character of the value can be the reason
             bad_key = find_bad_key(t)
-            sig = "xml-malformed:element-name" if bad_key is not None else "xml-malformed:characters"
-            fails.append((sig, "%s: the XML document is not well-formed (%s): %s" % (
-                label, "a map key is used as an element name: %r" % bad_key if bad_key is not None else "a control character is written literally", x[:200]), rep))
+            bad_char = find_bad_char(t)
+            if bad_key is not None:
+                fails.append(("xml-malformed:element-name", "%s: the XML document is not well-formed (a map key is used as an element name: %r): %s" % (label, bad_key, x[:200]), rep))
+            elif bad_char:
+                fails.append(("xml-malformed:characters", "%s: the XML document is not well-formed (a control character is written literally): %s" % (label, x[:200]), rep))
+            else:
+                fails.append(("xml-malformed:structure", "%s: the XML document is not well-formed although every name and character of the value is allowed: %s" % (label, x[:300]), rep))
         elif tags.get("faithful") != "yes":
             fails.append(("xml-unfaithful", "%s: the XML document does not encode the values of the json output" % label, rep))
     # invalid invocations
@@ -311,6 +345,26 @@ def extra_runs(tier, rng, ctx):
         elif so.strip():
             fails.append(("invalid-prints-document", "invalid invocation (%s) printed to stdout: %s" % (what, so[:100]), rep))
     return fails, {"evaluations": runs, "distinct_nontrivial": docs, "cli_runs": runs, "documents": docs, "xml_documents": len(xml_jobs), "invalid_invocations": len(INVALID)}
+
+
+def find_bad_char(t):
+    """a character that XML 1.1 does not allow literally, in a string or a key of the value"""
+    def bad(text):
+        return any((ord(c) < 0x20 and c not in "\t\n\r") or ord(c) == 0x7f for c in text)
+    if isinstance(t, dict):
+        return any(bad(k) or find_bad_char(v) for k, v in t.items())
+    if isinstance(t, list):
+        return any(find_bad_char(v) for v in t)
+    return isinstance(t, str) and bad(t)
+
+
+def player_names(j):
+    if isinstance(j, dict) and len(j) == 1 and isinstance(list(j.values())[0], dict) and "players" in list(j.values())[0]:
+        j = list(j.values())[0]                         # protocol-specific output: {"Valve": {...}}
+    p = j.get("players") if isinstance(j, dict) else None
+    if isinstance(p, list) and all(isinstance(x, dict) and isinstance(x.get("name"), str) for x in p):
+        return [x["name"] for x in p]
+    return None
 
 
 NAME = re.compile(r"[A-Za-z_:\x80-\U0010ffff][A-Za-z0-9_:.\-\x80-\U0010ffff]*\Z")
